@@ -91,11 +91,20 @@ func PropagateLookaheads(m *Model) error {
 		}
 		return ret
 	})
+	isInput := container.NewBitSet(len(m.Nonterms))
+	for _, inp := range m.Inputs {
+		isInput.Set(inp.Nonterm)
+	}
 	for len(queue) > 0 {
 		it := queue[len(queue)-1]
 		queue = queue[:len(queue)-1]
 
 		nt := m.Nonterms[it.nonterm]
+		if isInput.Get(it.nonterm) {
+			// Input nonterminals cannot be parametrized.
+			s.Errorf(nt.Origin, "lookahead flag %v cannot be passed to the input nonterminal %v", m.Params[it.param].Name, nt.Name)
+			continue
+		}
 		if !state[it.nonterm].compat {
 			state[it.nonterm].compat = true // report only once
 			s.Errorf(nt.Origin, "cannot propagate lookahead flag %v through nonterminal %v; avoid nullable alternatives and optional clauses", m.Params[it.param].Name, nt.Name)
